@@ -1255,16 +1255,18 @@ void XMLScanner::scanProlog()
             {
                 //  Ok, it could be the xml decl, a comment, the doc type line,
                 //  or the start of the root element.
+                //  If the '<' is not at line 1, col 1, then a decl here is
+                //  not the first text, so its invalid. (Looked at before the
+                //  check, which may or may not eat the white space character
+                //  that follows '<?xml'.)
+                const XMLReader* curReader = fReaderMgr.getCurrentReader();
+                const bool atStart = (curReader->getLineNumber() == 1)
+                                  && (curReader->getColumnNumber() == 1);
                 if (checkXMLDecl(true))
                 {
                     // There shall be at lease --ONE-- space in between
                     // the tag '<?xml' and the VersionInfo.
-                    //
-                    //  If we are not at line 1, col 6, then the decl was not
-                    //  the first text, so its invalid.
-                    const XMLReader* curReader = fReaderMgr.getCurrentReader();
-                    if ((curReader->getLineNumber() != 1)
-                    ||  (curReader->getColumnNumber() != 7))
+                    if (!atStart)
                     {
                         emitError(XMLErrs::XMLDeclMustBeFirst);
                     }
@@ -1649,9 +1651,16 @@ bool XMLScanner::checkXMLDecl(bool startWithAngle) {
     if (startWithAngle) {
         if (fReaderMgr.peekString(XMLUni::fgXMLDeclString)) {
             if (fReaderMgr.skippedString(XMLUni::fgXMLDeclStringSpace)
-               || fReaderMgr.skippedString(XMLUni::fgXMLDeclStringHTab)
-               || fReaderMgr.skippedString(XMLUni::fgXMLDeclStringLF)
-               || fReaderMgr.skippedString(XMLUni::fgXMLDeclStringCR))
+               || fReaderMgr.skippedString(XMLUni::fgXMLDeclStringHTab))
+            {
+                return true;
+            }
+            //  skippedString() does no line accounting: a line end after
+            //  '<?xml' is left to be skipped (and counted) with the white
+            //  space that scanXMLDecl() skips first.
+            if ((fReaderMgr.peekString(XMLUni::fgXMLDeclStringLF)
+                || fReaderMgr.peekString(XMLUni::fgXMLDeclStringCR))
+               && fReaderMgr.skippedString(XMLUni::fgXMLDeclString))
             {
                 return true;
             }
